@@ -4,7 +4,8 @@
         → pc=<start|waiting|done> fin=<0|1> prompt=<0|1>
     mrun <api> <remote|local> <all|one> <n> <c0,c1,l,…>   → fin=<0|1> prompt=<one 0/1 per caller>
     proxy <fixed|old> <size> <have> <reads: n,n,…|-> <fuel>   → some <n> | none
-  <api> is a row name of apiTable, or old:accept / old:ensure_session
+  <api> is a row name of apiTable, or old:accept / old:ensure_session / old:channel_request / old:accept_notify_first
+    prog <api> <remote|local>   → the wake-up sequence the row gets from the generated shutdown sequences
 -/
 import PV.Model.Blocking
 import PV.Base.DriverIO
@@ -13,13 +14,15 @@ open PV PV.Blocking
 def findApi (n : String) : Option Api :=
   if n == "old:accept" then some acceptOld
   else if n == "old:ensure_session" then some ensureSessionOld
+  else if n == "old:channel_request" then some channelRequestOld
+  else if n == "old:accept_notify_first" then some acceptNotifyFirst
   else apiTable.find? (·.name == n)
 
 def parseSched (s : String) : Option (List Tid) :=
   if s == "-" then some [] else
   s.toList.mapM fun c => if c == 'c' then some Tid.caller else if c == 'l' then some Tid.loss else none
 
-def showPc : Pc → String | .start => "start" | .waiting => "waiting" | .done => "done"
+def showPc : Pc → String | .start => "start" | .checked => "checked" | .waiting => "waiting" | .done => "done"
 def b01 (b : Bool) : String := if b then "1" else "0"
 
 def stepLine (line : String) : String :=
@@ -30,6 +33,11 @@ def stepLine (line : String) : String :=
       let s := run a l init sc
       s!"pc={showPc s.pc} fin={b01 (lossFinished a l s)} prompt={b01 (returnsPromptly a l s)}"
     | _, _, _ => "bad-op"
+  | ["prog", api, loss] =>
+    match findApi api, (if loss == "remote" then some Loss.remote else if loss == "local" then some Loss.localClose else none) with
+    | some a, some l => String.intercalate "," ((a.prog l).map fun
+        | .setInactive => "inactive" | .setFlag => "flag" | .notify => "notify")
+    | _, _ => "bad-op"
   | ["mrun", api, loss, mode, n, sch] =>
     -- many callers: schedule tokens c<i> / l separated by commas; mode all|one (notify_all / notify)
     let toks := if sch == "-" then [] else sch.splitOn ","
